@@ -2,7 +2,12 @@ package ast
 
 import "github.com/xjslang/xjs/token"
 
+// AddMapping records a mapping for the token about to be written. Deferred
+// layout whitespace is written first, so that the mapping is recorded at the
+// token's first character (it is flushed whether or not a mapper is attached:
+// requesting a source map must not change the generated code).
 func (cw *CodeWriter) AddMapping(pos token.Position) {
+	cw.flushPending()
 	if cw.Mapper == nil {
 		return
 	}
@@ -10,6 +15,7 @@ func (cw *CodeWriter) AddMapping(pos token.Position) {
 }
 
 func (cw *CodeWriter) AddNamedMapping(sourceLine, sourceColumn int, name string) {
+	cw.flushPending()
 	if cw.Mapper == nil {
 		return
 	}
